@@ -92,11 +92,26 @@ def run(args):
                   "util": "import tag from hostb;\npub fn check() { println(\"checked\", tag()); }\nfn main() { }\n",
                   "deep": "import look from deeper;\npub fn probe() { look(); }\nfn main() { }\n",
                   "deeper": "import { tag, num } from hosta;\npub fn look() { println(\"looked\", tag(), num); }\nfn main() { }\n"})
+    # singletons declared by several libraries: the host is asked for them in one order (the initializers of the modules run
+    # in one order), whatever the order of the maps the compiler keeps its modules in
+    sing_host = {}
+    sing_mods = {"main": "".join("import f_%s from %s;\n" % (m, m) for m in ("alpha", "beta", "gamma", "delta", "eps")) +
+                 "$Main = { n: int };\nfn main() { println($Main.n); " + " ".join("f_%s();" % m for m in ("alpha", "beta", "gamma", "delta", "eps")) + " }\n"}
+    sing_host["$Main"] = {"k": "obj", "fs": {"n": {"k": "int", "v": "0"}}}
+    for k, m in enumerate(("alpha", "beta", "gamma", "delta", "eps")):
+        sing_mods[m] = "$S%s = { n: int };\nlet g_%s = %d;\npub fn f_%s() { println(\"%s\", $S%s.n, g_%s); }\nfn main() { }\n" % (m, m, k, m, m, m, m)
+        sing_host["$S" + m] = {"k": "obj", "fs": {"n": {"k": "int", "v": str(k + 1)}}}
+    multi.append(sing_mods)
+    # a failing conversion with several culprits: which one the message names is part of the result
+    for text in ('{\\"a\\":1e999,\\"b\\":2e999,\\"c\\":3e999,\\"d\\":4e999,\\"e\\":5e999}', '{\\"l\\":[{\\"p\\":1e999,\\"q\\":[2e999]},{\\"r\\":3e999}],\\"m\\":4e999}',
+                 '{\\"k1\\":{\\"x\\":1e999},\\"k2\\":{\\"y\\":1e999},\\"k3\\":{\\"z\\":1e999},\\"k4\\":1e999}'):
+        multi.append({"main": "fn main() { try { println(\"%s\".parse_json() as { ? }); } catch e { println(e.message); } println(\"%s\".parse_json() as { ? }); }\n" % (text, text)})
     mreqs = []
     for mods in multi:
         for b in ("vm", "tree"):
             for k in range(reps * 3):
-                mreqs.append({"op": "run", "id": len(mreqs), "a": {"modules": mods, "entry": "main", "backend": b, "timeout_ms": 8000}})
+                mreqs.append({"op": "run", "id": len(mreqs), "a": {"modules": mods, "entry": "main", "backend": b, "timeout_ms": 8000,
+                                                                   **({"singletons": sing_host} if mods is sing_mods else {})}})
     mfirst = {}
     for q, r in zip(mreqs, pool.map(mreqs, timeout=30)):
         rep.count()
@@ -106,13 +121,17 @@ def run(args):
             rep.fail({"family": "multi-module", "backend": q["a"]["backend"], "kind": "hostcrash", "panic": sem.panic_class((r.get("crash") or {}).get("stderr", ""))},
                      {"modules": q["a"]["modules"], "real": str(r)[:1500]})
             continue
-        o = (r["r"]["accepted"], r["r"]["out"], (r["r"].get("outcome") or {}).get("kind"))
+        oc = r["r"].get("outcome") or {}
+        o = (r["r"]["accepted"], r["r"]["out"], oc.get("kind"), oc.get("msg"), r["r"].get("sing_loads"))
+        if not r["r"]["accepted"]:
+            raise C.Machinery("a multi-module program of C14 is not accepted: %s" % str(r["r"].get("diags"))[:300])
         if "kitchen" in q["a"]["modules"] and o[1] != "main: kitchen 1\ngarage: tools 2\ncellar: shelf 3\nmain: kitchen 1\n":
             rep.fail({"family": "multi-module", "backend": q["a"]["backend"], "kind": "wrong-output"}, {"modules": q["a"]["modules"], "got": o})
             continue
         f = mfirst.setdefault(key, o)
         if f != o:
-            rep.fail({"family": "multi-module", "backend": q["a"]["backend"], "kind": "repetition-differs", "what": "output"},
+            rep.fail({"family": "multi-module", "backend": q["a"]["backend"], "kind": "repetition-differs",
+                      "what": "output" if f[1] != o[1] else "message" if f[3] != o[3] else "host-calls" if f[4] != o[4] else "outcome"},
                      {"modules": q["a"]["modules"], "first": f, "now": o})
     # (2c) programs that run into a limit: where they are stopped, with which message and after which output is part of
     # the result (limits are polled at fixed instruction counts, not at moments in time)
